@@ -2,6 +2,7 @@ package props
 
 import (
 	"fmt"
+	"github.com/nspcc-dev/neo-go/pkg/core/transaction"
 	"math/big"
 	"testing"
 
@@ -231,10 +232,20 @@ func TestC19Main(t *testing.T) {
 				if !witness {
 					signers = []neotest.Signer{users[(ui+1)%3]}
 				}
+				// one witnessed call in five limits the witness to the entry call (scope CalledByEntry): the fee transfers
+				// inside native GAS do not see it - the call may be refused as a whole, but if it is accepted the fee is paid
+				scoped := witness && rapid.IntRange(0, 4).Draw(rt, "calledByEntry") == 0
+				if scoped {
+					w.c.NextScope = transaction.CalledByEntry
+				}
 				o := w.c.Invoke(signers, w.neofs, "withdraw", u.ScriptHash(), amount)
-				what := fmt.Sprintf("withdraw(%s, %d) witness=%v fee=%d", uname, amount, witness, wfee)
+				what := fmt.Sprintf("withdraw(%s, %d) witness=%v calledByEntry=%v fee=%d", uname, amount, witness, scoped, wfee)
 				h.Op("%s -> %s", what, o)
 				accept := witness && amount >= 0 && amount <= 9000
+				if scoped && accept && !o.Halt {
+					accept = false
+					h.Mark("scoped-call-refused")
+				}
 				if accept != o.Halt {
 					fail("C19: %s: expected accepted=%v, got %s", what, accept, o)
 				}
@@ -359,10 +370,18 @@ func TestC19Main(t *testing.T) {
 				if !witness {
 					signers = []neotest.Signer{users[0]}
 				}
+				scoped := witness && rapid.IntRange(0, 4).Draw(rt, "calledByEntry") == 0
+				if scoped {
+					w.c.NextScope = transaction.CalledByEntry
+				}
 				o := w.c.Invoke(signers, w.neofs, "innerRingCandidateAdd", key)
-				what := fmt.Sprintf("innerRingCandidateAdd(candidate%d) witness=%v fee=%d", ci, witness, cfee)
+				what := fmt.Sprintf("innerRingCandidateAdd(candidate%d) witness=%v calledByEntry=%v fee=%d", ci, witness, scoped, cfee)
 				h.Op("%s -> %s", what, o)
 				accept := witness && !inList[ci] && w.c.GAS(cd.ScriptHash()) >= 0 && pre[cd.ScriptHash()] >= cfee
+				if scoped && accept && !o.Halt {
+					accept = false
+					h.Mark("scoped-call-refused")
+				}
 				if accept != o.Halt {
 					fail("C19: %s: expected accepted=%v, got %s", what, accept, o)
 				}
